@@ -25,6 +25,8 @@ var twinKinds = map[string]int{
 	"cb_notdone": 2, "cb_unknown": 2, "az_err": 6, "az_noredirect": 3, "tok_err": 8, "cred_err": 6, "dead_tok": 4, "es_err": 3,
 	// not refusals, but judged the same way: requests to the providers that share the process (variant = the provider asked)
 	"devauth": 4, "xdisc": 3, "xtoken": 4,
+	// verifications on the shared verifier objects (verifiers_test.go)
+	"jp_verify": len(jpVariants), "at_verify": 4, "hint_verify": 3,
 }
 
 // variants of twin kinds that need the pools of setup (not run in a cold case)
@@ -36,6 +38,8 @@ func twinNeedsPools(o Op) bool {
 		return o.A%twinKinds["es_err"] != 0
 	case "az_err":
 		return false
+	case "at_verify", "hint_verify":
+		return true
 	}
 	return false
 }
@@ -104,6 +108,8 @@ func (e *env) errOp(o Op, tag string, part int, sync func()) (obs, msg string) {
 		return q
 	}
 	switch o.K {
+	case "jp_verify", "at_verify", "hint_verify":
+		return e.verifierOp(o, v, tag, sync)
 	case "cb_notdone":
 		// the user comes back from the login UI before the auth request is done
 		cl := e.web
